@@ -223,13 +223,17 @@ def run_scenario(ex, fnode, c, scen):
         for i, r in enumerate(c.requires):
             lab, e = r if isinstance(r, tuple) else ('req%d' % i, r)
             ex.assume(S.spec_eval(e, env_pre, extra))
+        for g, e in c.ghost.items():
+            ex.store['ghost_' + g] = S.spec_eval_term(e, env_pre, extra)
+            ex.names[g] = Path('ghost_' + g)
+            names[g] = Path('ghost_' + g)
         for e in c.body_assumes:
             ex.assume(S.spec_eval(e, env_pre, extra))
             ex.assumed.add('definitional axiom: ' + e)
         if first:
             first = False
             # vacuity: the precondition must be satisfiable
-            s = ex.mk_solver(5000)
+            s = ex.mk_solver(1500)
             for h in ex.hyps:
                 s.add(h)
             r = s.check()
